@@ -251,7 +251,7 @@ def systematic():
                 out.append((f"sys:{op}:vv", f"def sv_{k}(a: Qint[{wl}], b: Qint[{wr}]) -> {ret}:\n\treturn a {op} b"))
                 k += 1
         for w in W:
-            for c in (0, 1, 3, 6):
+            for c in (0, 1, 3, 4, 6):   # 4 = first value past the Qint2 candidate of const_to_qtype
                 out.append((f"sys:{op}:vc", f"def sv_{k}(a: Qint[{w}]) -> {ret}:\n\treturn a {op} {c}"))
                 k += 1
                 out.append((f"sys:{op}:cv", f"def sv_{k}(a: Qint[{w}]) -> {ret}:\n\treturn {c} {op} a"))
@@ -342,6 +342,9 @@ FORMS = [
     ("int", "def fm_44(a: Qint[3]) -> Qint[3]:\n\treturn int(a) + 1"),
     ("modvar", "def fm_45(a: Qint[4]) -> Qint[4]:\n\tb = 4\n\treturn a % b"),
     ("nested-tuple", "def fm_46(t: Tuple[Tuple[bool, Qint[2]], bool]) -> Qint[2]:\n\treturn t[0][1] if t[1] else 1"),
+    ("folded-const", "def fm_48(a: Qint[3]) -> Qint[6]:\n\treturn (((a + 8) ^ a) * ((a * 15) - (1 + a)))"),
+    ("folded-const", "def fm_49(a: Qint[3], b: Qint[2], c: Qint[2]) -> Qint[2]:\n\tt0 = ((a if (7 == c) else 2) * b)\n\treturn (t0 | b)"),
+    ("folded-const", "def fm_50(a: Qint[2]) -> Qint[4]:\n\treturn (a ^ a) * a + (a >> 3) * 3"),
     ("else-if", "def fm_47(a: Qint[2], c: bool, d: bool) -> Qint[2]:\n\tr = a\n\tif c:\n\t\tr = 1\n\telse:\n\t\tr = 2\n\treturn r + (1 if d else 0)"),
 ]
 
@@ -917,11 +920,11 @@ def run(ctx: Ctx) -> Result:
                  malformed_accepted_but_right=0)
     stream = list(systematic())
     stream += [("malformed:" + n, s) for n, s in MALFORMED]
-    n_int = 1600 if ctx.thorough else 130
-    n_bool = 200 if ctx.thorough else 25
-    n_stmt = 900 if ctx.thorough else 90
+    n_int = 700 if ctx.thorough else 130
+    n_bool = 150 if ctx.thorough else 25
+    n_stmt = 450 if ctx.thorough else 90
     for k in range(n_int):
-        stream.append(("rand:expr", progs.gen_int_program(rng, k, max_bits=9 if ctx.thorough else 8)))
+        stream.append(("rand:expr", progs.gen_int_program(rng, k, max_bits=8)))
     for k in range(n_bool):
         stream.append(("rand:bool", progs.gen_bool_program(rng, k)))
     for k in range(n_stmt):
@@ -930,7 +933,7 @@ def run(ctx: Ctx) -> Result:
         run_arith(ctx, lib, res, stats)
         batch = []
         for tag, src in stream:
-            c = observe(lib, tag, src, budget=12 if ctx.thorough else 5)
+            c = observe(lib, tag, src, budget=6 if ctx.thorough else 5)
             res.count(dict(src=src), nontrivial=nontrivial(c), bucket=tag.split(":")[0] + ":" + tag.split(":")[1][:12])
             batch.append(c)
             if len(batch) >= 400:
